@@ -130,12 +130,35 @@ var templates = []tmpl{
 		`module m { ` + hdr("m") + ` include s; container own { } %PAD }`,
 		`module o { ` + hdr("o") + ` leaf ol { type string; } }`,
 		`submodule s { belongs-to o { prefix o; } container sc { leaf l { type string; } } }`}},
+	{name: "augment-collides-in-the-output-of-an-rpc-that-has-no-input", augment: true, files: []string{
+		`module m { ` + hdr("m") + ` rpc r { output { leaf o { type string; } } } %PAD }`,
+		`module b { ` + hdr("b") + ` import m { prefix m; } augment /m:r/m:output { leaf o { type int8; } } }`}},
+	{name: "augment-collides-below-the-output-of-an-action-that-has-no-input", augment: true, files: []string{
+		`module m { ` + hdr("m") + ` yang-version 1.1; list l { key k; leaf k { type string; } action a { output { container oc { leaf o { type string; } } } } } %PAD }`,
+		`module b { ` + hdr("b") + ` import m { prefix m; } augment /m:l/m:a/m:output/m:oc { leaf o { type int8; } } }`}},
+	{name: "not-supported-twice-and-then-the-parent-is-removed", files: []string{
+		`module m { ` + hdr("m") + ` container c { leaf x { type string; } leaf y { type string; } } %PAD }`,
+		`module d { ` + hdr("d") + ` import m { prefix m; } deviation /m:c/m:x { deviate not-supported; deviate not-supported; } deviation /m:c { deviate not-supported; } }`}},
+	{name: "deviation-without-target-in-a-submodule-named-like-a-loaded-module", files: []string{
+		`module m { ` + hdr("m") + ` leaf l1 { type string; } leaf l2 { type string; } %PAD }`,
+		`module x { ` + hdr("x") + ` import m { prefix m; } deviation /m:l1 { deviate add { default "dm"; } } }`,
+		`module y { ` + hdr("y") + ` include x; }`,
+		`submodule x { belongs-to y { prefix y; } import m { prefix m; } deviation /m:l2 { deviate add { default "ds"; } } deviation /m:nosuch { deviate not-supported; } }`}},
 	{name: "not-supported-twice-in-one-deviation", files: []string{
 		`module m { ` + hdr("m") + ` container c { leaf x { type string; } leaf y { type string; } %PAD } }`,
 		`module d { ` + hdr("d") + ` import m { prefix m; } deviation /m:c/m:x { deviate not-supported; deviate not-supported; } }`}},
 	{name: "unprefixed-paths-written-in-a-submodule", augment: true, clean: true, present: [][]string{{"top", "x"}, {"c", "y"}}, defaults: map[string]string{"sc/sl": "dx", "c/l": "dy"}, files: []string{
 		`module m { ` + hdr("m") + ` include s; container c { leaf l { type string; } %PAD } }`,
 		`submodule s { belongs-to m { prefix m; } container top { } container sc { leaf sl { type string; } } augment "/top" { leaf x { type string; } } augment /c { leaf y { type string; } } deviation /sc/sl { deviate add { default "dx"; } } deviation /c/l { deviate add { default "dy"; } } }`}},
+	{name: "paths-with-the-belongs-to-prefix-written-in-a-submodule", augment: true, clean: true, present: [][]string{{"sc", "x"}, {"c", "y"}}, defaults: map[string]string{"sc/sl": "dx", "c/l": "dy"}, files: []string{
+		`module m { ` + hdr("m") + ` include s; container c { leaf l { type string; } %PAD } }`,
+		`submodule s { belongs-to m { prefix m; } container sc { leaf sl { type string; } } augment "/m:sc" { leaf x { type string; } } augment /m:c { leaf y { type string; } } deviation /m:sc/m:sl { deviate add { default "dx"; } } deviation /m:c/m:l { deviate add { default "dy"; } } }`}},
+	{name: "paths-with-another-belongs-to-prefix-written-in-a-submodule", augment: true, clean: true, present: [][]string{{"sc", "x"}, {"c", "y"}}, defaults: map[string]string{"sc/sl": "dx", "c/l": "dy"}, files: []string{
+		`module m { ` + hdr("m") + ` include s; container c { leaf l { type string; } %PAD } }`,
+		`submodule s { belongs-to m { prefix own; } container sc { leaf sl { type string; } } augment "/own:sc" { leaf x { type string; } } augment /own:c { leaf y { type string; } } deviation /own:sc/own:sl { deviate add { default "dx"; } } deviation /own:c/own:l { deviate add { default "dy"; } } }`}},
+	{name: "default-added-to-a-choice-that-has-one", files: []string{
+		`module m { ` + hdr("m") + ` container c { choice transport { default tcp; leaf tcp { type string; } leaf udp { type string; } case other { leaf o { type string; } } } %PAD } }`,
+		`module d { ` + hdr("d") + ` import m { prefix m; } deviation /m:c/m:transport { deviate add { default udp; } } }`}},
 	{name: "not-supported-on-rpc-input-or-output", clean: true, gone: []string{"r"}, files: []string{
 		`module m { ` + hdr("m") + ` rpc r { input { leaf i { type string; } } output { leaf o { type string; } } } %PAD }`,
 		`module d { ` + hdr("d") + ` import m { prefix m; } deviation /m:r/m:%IO { deviate not-supported; } }`}},
